@@ -1,8 +1,10 @@
 #!/bin/sh
-# Build the Lean library (models, proofs) and the compiled model driver from the sources in lean/. Offline.
+# Build the Lean library (models, proofs) and the compiled model drivers from the sources in lean/. Offline.
 set -e
 here="$(cd "$(dirname "$0")" && pwd)"
 cd "$here/lean"
 lake build
-test -x .lake/build/bin/driver
+for d in $(sed -n 's/^name = "\(drv_[a-z0-9_]*\)"$/\1/p' lakefile.toml); do
+  test -x ".lake/build/bin/$d" || { echo "setup: driver $d was not built" >&2; exit 1; }
+done
 echo "setup ok"
